@@ -14,26 +14,44 @@ leaves the storage unchanged (index out of range, create on an existing resource
 remove on a missing resource without default, wrong resource type, negative index) -/
 theorem failed_apply_inert (cfg : Cfg) (s : Option LVal) (e : Ev) (h : (apply cfg s e).2.failed = true) :
     (apply cfg s e).1 = s ∧ (apply cfg s e).2.published = false := by
-  sorry
+  revert h
+  cases e <;> simp only [apply] <;> repeat' split
+  all_goals simp [Legacy.failure, nothing]
 
 /-- more generally nothing changes without an event being published -/
 theorem unpublished_inert (cfg : Cfg) (s : Option LVal) (e : Ev) (h : (apply cfg s e).2.published = false) :
     (apply cfg s e).1 = s := by
-  sorry
+  revert h
+  cases e <;> simp only [apply] <;> repeat' split
+  all_goals simp [Legacy.failure, nothing]
 
 theorem index_out_of_range (cfg : Cfg) (s : Option LVal) (l : List Str) (v : Str) (idx : Int)
     (hm : cfg.isModel = false) (hs : served cfg s = some (.coll l)) :
     ((l.length : Int) < idx → (apply cfg s (.add v idx)).2.failed = true) ∧
     ((l.length : Int) ≤ idx → (apply cfg s (.remove idx)).2.failed = true) := by
-  sorry
+  constructor
+  · intro hlt
+    have h0 : ¬ idx < 0 := by omega
+    have h1 : l.length < idx.toNat := by omega
+    simp [apply, hm, hs, h0, h1, Legacy.failure]
+  · intro hle
+    have h0 : ¬ idx < 0 := by omega
+    have h1 : l.length ≤ idx.toNat := by omega
+    simp [apply, hm, hs, h0, h1, Legacy.failure]
 
 theorem create_existing_fails (cfg : Cfg) (s : Option LVal) (v : LVal) (h : (served cfg s).isSome) :
     (apply cfg s (.create v)).2.failed = true := by
-  sorry
+  have : s.isSome ∨ cfg.dflt.isSome := by
+    unfold served at h
+    cases s with
+    | some x => exact Or.inl rfl
+    | none => exact Or.inr h
+  simp only [apply, if_pos this, Legacy.failure]
 
 theorem change_missing_fails (cfg : Cfg) (props : List (Str × Option Str)) (hm : cfg.isModel = true)
     (hd : cfg.dflt = none) (hp : props ≠ []) : (apply cfg none (.change props)).2.failed = true := by
-  sorry
+  have hp' : props.isEmpty = false := by cases props <;> simp_all
+  simp [apply, hm, hp', served, hd, Legacy.failure]
 
 /-- **the served value is the fold of the applied events**: failed and silent events can be dropped
 from a history without changing what is served -/
@@ -43,7 +61,17 @@ def succeeded (cfg : Cfg) : Option LVal → List Ev → List Ev
 
 theorem served_is_fold (cfg : Cfg) (s : Option LVal) (evs : List Ev) :
     fold cfg s evs = fold cfg s (succeeded cfg s evs) := by
-  sorry
+  induction evs generalizing s with
+  | nil => rfl
+  | cons e es ih =>
+    simp only [succeeded]
+    split
+    · simp only [fold]; exact ih _
+    · next hp =>
+      have hp' : (apply cfg s e).2.published = false := by simpa using hp
+      simp only [fold]
+      rw [unpublished_inert cfg s e hp']
+      exact ih _
 
 /-- a successful change sets exactly the given keys (delete actions remove them) and keeps the others … -/
 theorem change_applies (cfg : Cfg) (s : Option LVal) (m : List (Str × Str)) (props : List (Str × Option Str))
@@ -51,7 +79,23 @@ theorem change_applies (cfg : Cfg) (s : Option LVal) (m : List (Str × Str)) (pr
     (hpub : (apply cfg s (.change props)).2.published = true) :
     ∃ m', (apply cfg s (.change props)).1 = some (.model m') ∧
       ∀ k, mget m' k = (match props.find? (·.1 == k) with | some (_, v) => v | none => mget m k) := by
-  sorry
+  have hmodel : (!cfg.isModel) = false := by simp [hm]
+  simp only [apply, hmodel, hs] at hpub ⊢
+  simp only [Bool.false_eq_true, if_false] at hpub ⊢
+  split at hpub
+  · simp [nothing] at hpub
+  · next hne =>
+    rw [if_neg hne]
+    split at hpub
+    · simp [nothing] at hpub
+    · next hrev =>
+      rw [if_neg hrev]
+      refine ⟨(applyChange m props).1, rfl, ?_⟩
+      intro k
+      rw [mget_applyChange props m hk k]
+      cases props.find? (·.1 == k) with
+      | none => rfl
+      | some p => rfl
 
 /-- … **and the old values handed to the listeners are exactly the previous stored values** of the keys
 that changed (`none` = the key did not exist) -/
@@ -59,26 +103,48 @@ theorem old_values_exact (cfg : Cfg) (s : Option LVal) (m : List (Str × Str)) (
     (hm : cfg.isModel = true) (hs : served cfg s = some (.model m)) (hk : (props.map (·.1)).Nodup) (hmk : (m.map (·.1)).Nodup)
     (k : Str) (ov : Option Str) (h : (k, ov) ∈ (apply cfg s (.change props)).2.old) :
     ov = mget m k ∧ (∃ v, (k, v) ∈ props ∧ v ≠ mget m k) := by
-  sorry
+  have _ := hmk   -- not needed: `mget`/`mset`/`mdel` are consistent on models with repeated keys too
+  have hmodel : (!cfg.isModel) = false := by simp [hm]
+  simp only [apply, hmodel, hs] at h
+  simp only [Bool.false_eq_true, if_false] at h
+  split at h
+  · simp [nothing] at h
+  · split at h
+    · simp [nothing] at h
+    · exact mem_applyChange_rev props m hk k ov h
 
 /-- a change that changes nothing publishes nothing -/
 theorem change_nothing_silent (cfg : Cfg) (s : Option LVal) (m : List (Str × Str)) (props : List (Str × Option Str))
     (hm : cfg.isModel = true) (hs : served cfg s = some (.model m))
     (hsame : ∀ kv ∈ props, kv.2 = mget m kv.1) :
     (apply cfg s (.change props)).2.published = false := by
-  sorry
+  have hmodel : (!cfg.isModel) = false := by simp [hm]
+  simp only [apply, hmodel, hs, applyChange_same props m hsame]
+  simp only [nothing, Bool.false_eq_true, if_false, List.isEmpty_nil, if_true]
+  split <;> rfl
 
 /-- **the data handed to listeners of a delete event is exactly the previous stored value** -/
 theorem delete_data_exact (cfg : Cfg) (s : Option LVal) (h : (apply cfg s .delete).2.published = true) :
     (apply cfg s .delete).2.data = s ∧ (apply cfg s .delete).1 = none := by
-  sorry
+  simp only [apply] at h ⊢
+  split
+  · next hc => simp [hc, Legacy.failure] at h
+  · exact ⟨rfl, rfl⟩
 
 /-- add and remove act on the served collection as list insertion and deletion -/
 theorem add_remove_apply (cfg : Cfg) (s : Option LVal) (l : List Str) (v : Str) (i : Nat)
     (hm : cfg.isModel = false) (hs : served cfg s = some (.coll l)) :
     (i ≤ l.length → (apply cfg s (.add v i)).1 = some (.coll (l.insertIdx i v))) ∧
     (i < l.length → (apply cfg s (.remove i)).1 = some (.coll (l.eraseIdx i))) := by
-  sorry
+  constructor
+  · intro hi
+    have h1 : ¬ l.length < i := by omega
+    have h0 : ¬ (i : Int) < 0 := by omega
+    simp [apply, hm, hs, h1, h0]
+  · intro hi
+    have h1 : ¬ l.length ≤ i := by omega
+    have h0 : ¬ (i : Int) < 0 := by omega
+    simp [apply, hm, hs, h1, h0]
 
 /-! ## non-vacuity -/
 example : (apply ⟨true, none, false⟩ (some (.model [([97], [49])])) (.change [([97], some [50]), ([98], none)])).2.old = [([97], some [49])] := by decide
